@@ -2931,6 +2931,11 @@ class TsIds(Monitor):
                                    ("ts.pair_coalescence_rates", {"tw": ["0", "1", "inf"]})):
                     st = {"op": opn, "args": dict(extra, sets=sets), "expect": sets_expect(sets) or "any"}
                     yield {"base": rng.choice(bases), "steps": [st, {"op": "probe.ts", "args": {}}]}
+            # negative ids that alias a SAMPLE through Python indexing (C09-N8): -n is node 0
+            for sets in ([["1"], ["-n"]], [["-n"], ["1"]], [["-n", "1"]], [["-n"]]):
+                for opn in ("ts.count_topologies", "tree.count_topologies"):
+                    yield {"base": rng.choice(bases), "steps": [
+                        {"op": opn, "args": {"sets": sets}, "expect": "raise"}, {"op": "probe.ts", "args": {}}]}
             # union: node mapping values and length
             for mp in ({}, {"fill": "-1"}, {"fill": "n"}, {"fill": "-2"}, {"fill": "max"}, {"fill": "n+1"}, {"fill": "min"},
                        {"set": {"0": "n"}}, {"set": {"0": "-2"}}, {"set": {"1": "max"}}, {"fill": "-1", "set": {"0": "n"}},
